@@ -56,6 +56,7 @@ type World struct {
 	aliased     map[*Func]bool
 	aliasShort  map[string]string // new short name -> pinned short name
 	Inlined     []string          // helper functions substituted at their call sites before analysis
+	SplitIn     map[string]string // function -> carrier variable split into per-field locals before analysis
 	InlineNotes []string
 }
 
@@ -109,13 +110,17 @@ func Load(o LoadOpts) (*World, error) {
 	pre := w.Renamed
 	w.aliasRenamed()
 	w.Renamed = append(pre, w.Renamed...)
-	for round := 0; round < 12; round++ {
+	for round := 0; round < 20; round++ {
 		ov, names, notes := w.inlineRound(o.Overlay)
 		if len(names) == 0 {
 			// no helper left: forward-substitute new locals
 			var subs []string
 			ov, subs = w.normalizeLocals(o.Overlay)
 			kind := "new local "
+			if len(subs) == 0 {
+				ov, subs = w.splitAggregates(o.Overlay)
+				kind = "carrier struct split into one local per field: "
+			}
 			if len(subs) == 0 {
 				ov, subs = w.unrollLiteralRanges(o.Overlay)
 				kind = "range over a literal unrolled in "
@@ -142,6 +147,18 @@ func Load(o LoadOpts) (*World, error) {
 				w2.aliasRenamed()
 				w2.Renamed = keep
 				w2.Inlined = w.Inlined
+				w2.SplitIn = w.SplitIn
+				if strings.HasPrefix(kind, "carrier") {
+					w2.SplitIn = map[string]string{}
+					for k, v := range w.SplitIn {
+						w2.SplitIn[k] = v
+					}
+					for _, s := range subs {
+						if i := strings.LastIndex(s, ":"); i > 0 {
+							w2.SplitIn[s[:i]] = s[i+1:]
+						}
+					}
+				}
 				w2.InlineNotes = append(w.InlineNotes, notes...)
 				for _, s := range subs {
 					if kind == "new local " {
@@ -174,6 +191,7 @@ func Load(o LoadOpts) (*World, error) {
 		w2.aliasRenamed()
 		w2.Renamed = keepR
 		w2.Inlined = append([]string{}, w.Inlined...)
+		w2.SplitIn = w.SplitIn
 		w2.InlineNotes = w.InlineNotes
 		for _, n := range names {
 			if strings.HasPrefix(n, "local ") {
